@@ -80,10 +80,12 @@ def _models():
             "_check_mode": lambda ev, c: None, "warnings.warn": lambda ev, c: None, "Frames": frames}
 
 
-def call(ctx, me, method, **kw):
+def call(ctx, me, method, extra_models=None, **kw):
     """evaluate a method of HDF5TrajectoryFile on the model object; -> (returned value, exception text or None)"""
     fn = F.method(ctx, "h5", method)
-    ts = TenSym({}, models=_models())
+    mm = _models()
+    mm.update(extra_models or {})
+    ts = TenSym({}, models=mm)
     try:
         return ts.run_fn(fn, self=me, **kw), None
     except Raised as e:
